@@ -158,6 +158,12 @@ class NameSet(Abstract):
         x = to_z3(x)
         return z3.Or(*[x == y for y in self.items]) if self.items else z3.BoolVal(False)
 
+    def truth(self, I):
+        return len(self.items) > 0
+
+    def length(self, I):
+        return len(self.items)
+
 
 class Seg(Abstract):
     def __init__(self, name):
